@@ -55,7 +55,7 @@ func init() {
 		IgnoreKinds: map[string]bool{"DEADLOCK": true}, // deadlocking schedules are C07's claim
 		Explanation: "Bounded exhaustive schedule exploration with a happens-before (vector clock) data-race monitor over every interpreted heap cell and map of the real code's SSA: two-goroutine programs covering (1) pairs of namespace calls through per-goroutine Sub views of one MemFS / one shared OrefaFS, (2) pairs of File methods on one file through two distinct handles and through one shared handle, (3) pairs of MemIdm calls on one shared identity manager, (4) per-goroutine Sub views that set their own user, umask and working directory and then operate. Edges: mutex/RWMutex release->acquire, WaitGroup Done->Wait, goroutine start/join; atomics are not data accesses. A pair of conflicting accesses (at least one write; map operations count as accesses to the map) not ordered by happens-before in an explored schedule is reported as a race; the solver's part is degenerate (schedule choices are enumeration points). The predicted OrefaFile shared-handle race was confirmed natively with go run -race before it was fixed.",
 		Bounds: func(tier string) map[string]any {
-			return map[string]any{"goroutines": 2, "calls_per_goroutine": 1, "preemption_bound": map[string]string{"quick": "2", "thorough": "2; 3 for the namespace pairs of 8 core templates"}[tier], "scheduling_points": "before Lock/RLock, at atomics, at blocking, goroutine start/exit (sufficient to expose the first race of a program: accesses between two synchronisation operations of a thread are not interleaved further)", "outside": "3-16 goroutines, long random programs, free-running execution under the Go race detector"}
+			return map[string]any{"goroutines": 2, "calls_per_goroutine": 1, "preemption_bound": map[string]string{"quick": "2", "thorough": "2; 3 for the namespace pairs of 5 core templates"}[tier], "scheduling_points": "before Lock/RLock, at atomics, at blocking, goroutine start/exit (sufficient to expose the first race of a program: accesses between two synchronisation operations of a thread are not interleaved further)", "outside": "3-16 goroutines, long random programs, free-running execution under the Go race detector"}
 		},
 		Assumptions: []string{"the monitor sees interpreted code only: races inside intrinsics (sync, atomic, bytealg) are not modelled", "schedules are decided in the interpreter only"},
 	})
